@@ -1,5 +1,6 @@
 //! C02 syntactic tie.  One type (Nickel source) per stdin line; for each, one stdout line
-//!   `T <type s-expr>\tF <skeleton of Type::contract>\tS <skeleton of Type::contract_static>`
+//!   `T <type s-expr>\tF <skeleton of Type::contract>\tS <skeleton of Type::contract_static>\tH <0|1>`
+//! (H: RuntimeContract::from_static_type gives S with hook H2 off and F with hook H2 on)
 //! or `ERR <what>`.  The type s-expr is the parsed `Type` (with the excluded sets the parser
 //! computed for record-row variables); the skeletons are obtained by walking the `NickelValue`
 //! that the real `subcontract` built: which `$internals` function is applied to which
@@ -9,7 +10,8 @@ use nickel_lang_core::{
     files::Files,
     parser::{ErrorTolerantParserCompat, grammar::FixedTypeParser, lexer::Lexer},
     position::PosTable,
-    term::{BinaryOp, Term},
+    label::Label,
+    term::{BinaryOp, LabeledType, RuntimeContract, Term},
     traverse::{Traverse, TraverseControl},
     typ::{
         DictTypeFlavour, EnumRows, EnumRowsF, RecordRows, RecordRowsF, Type, TypeF, VarKind,
@@ -239,7 +241,24 @@ fn main() {
                         Ok(c) => skel(&c),
                         Err(_) => "UNBOUND".into(),
                     };
-                    format!("T {}\tF {}\tS {}", sx_type(&ty), full, stat)
+                    // hook H2: RuntimeContract::from_static_type must produce the static contract
+                    // with the toggle off and the full contract with the toggle on
+                    let mut via_hook = |on: bool| {
+                        nickel_lang_core::verif_hooks::set_full_static_contracts(on);
+                        let r = RuntimeContract::from_static_type(
+                            &mut pos_table,
+                            LabeledType { typ: ty.clone(), label: Label::default() },
+                        );
+                        nickel_lang_core::verif_hooks::set_full_static_contracts(false);
+                        match r {
+                            Ok(c) => skel(&c.contract),
+                            Err(_) => "UNBOUND".into(),
+                        }
+                    };
+                    let h_off = via_hook(false);
+                    let h_on = via_hook(true);
+                    let h = if h_off == stat && h_on == full { "H 1" } else { "H 0" };
+                    format!("T {}\tF {}\tS {}\t{}", sx_type(&ty), full, stat, h)
                 }
                 Err(_) => "ERR parse".to_string(),
             }
